@@ -20,6 +20,7 @@ CONSTANTS
   KFInitOpts = FALSE
   KFV1Hist = FALSE
   PreT = {}
+  TSActs = {"Commit"}
   Balanced = FALSE
   EmitMode = "class"
 VIEW View
